@@ -1,12 +1,14 @@
 """Standalone reproductions (plain real code, no scheduler, no model) of the C32 / C33 findings.
 
-    cd /verif && PYTHONPATH=/repo:/verif /venv/bin/python -m drivers._conc2_repro [pool0|poolsession|inode|idle|all]
+    cd /verif && PYTHONPATH=/repo:/verif /venv/bin/python -m drivers._conc2_repro [pool0|poolsession|poolintr|inode|idle|all]
 
 pool0        C32-F1  WorkerPool(max_idle=0) keeps one idle worker
 poolsession  C32-F2  a stream abandoned before a cleanly closed one: the worker is reused, the next borrower's call fails
 inode        C33-F2  an exiting worker's late unlink removes its successor's socket when the inode number is reused
                      (calls the helpers in the order the shipped serve_unix does: close, [launcher + successor], unlink --
                      it shows the mechanism, so it "reproduces" on a fixed tree as well)
+poolintr     C32-F3  a unary call interrupted by an on_log callback that raises BrokenPipeError / KeyboardInterrupt: the
+                     worker goes back to the pool with the rest of the response unread; the next borrower's call fails
 idle         C33-F1  a connection accepted right after the idle timer fired is served by a worker that stops accepting
                      (real sockets, real time: ~12 s)
 """
@@ -61,6 +63,40 @@ def poolsession() -> bool:
             t = p1
     print(f"poolsession: worker {p1} kept idle = {idle == 1}; next borrower (worker {t}): {out}")
     return bad and idle == 1
+
+
+def poolintr() -> bool:
+    from drivers._conc2_poolsvc import PoolSvc, worker_cmd
+    from vgi_rpc.pool import WorkerPool
+
+    os.environ["PYTHONPATH"] = os.pathsep.join(p for p in sys.path if p)
+    hit = False
+    for exc in (BrokenPipeError("stdout is gone"), KeyboardInterrupt()):
+        armed = [True]
+
+        def on_log(msg, exc=exc, armed=armed):
+            if armed[0]:
+                raise exc                      # e.g. print(msg) on a closed stdout / Ctrl-C while the call is in flight
+
+        with WorkerPool(max_idle=2) as pool:
+            try:
+                with pool.connect(PoolSvc, worker_cmd(), on_log=on_log) as svc:
+                    p1 = svc._transport._inner.proc.pid
+                    svc.echo_log(x=5, logs=3)
+            except BaseException as e:  # noqa: BLE001
+                first = type(e).__name__
+            idle = pool.idle_count
+            try:
+                with pool.connect(PoolSvc, worker_cmd()) as svc:
+                    p2 = svc._transport._inner.proc.pid
+                    out = f"echo(7001) -> {svc.echo(x=7001)}"
+                    bad = False
+            except Exception as e:  # noqa: BLE001
+                out, bad, p2 = f"{type(e).__name__}: {str(e)[:70]}", True, p1
+        print(f"poolintr[{type(exc).__name__}]: first borrower saw {first}; worker {p1} kept idle: {idle == 1}; "
+              f"next borrower (worker {p2}): {out}")
+        hit = hit or (bad and idle == 1)
+    return hit
 
 
 def inode() -> bool:
@@ -122,7 +158,7 @@ def idle() -> bool:
 
 if __name__ == "__main__":
     which = sys.argv[1] if len(sys.argv) > 1 else "all"
-    fns = {"pool0": pool0, "poolsession": poolsession, "inode": inode, "idle": idle}
+    fns = {"pool0": pool0, "poolsession": poolsession, "poolintr": poolintr, "inode": inode, "idle": idle}
     for k, f in fns.items():
         if which in (k, "all"):
             print(f"  -> reproduced: {f()}", flush=True)
